@@ -12,6 +12,7 @@ import (
 	"encoding/binary"
 	"encoding/json"
 	"fmt"
+	"math"
 	"strconv"
 	"sync"
 
@@ -109,6 +110,11 @@ func infoFromCell(cell *hrpc.Cell) (hrpc.RegionInfo, error) {
 	i, j := bytes.IndexByte(cell.Row, ','), bytes.LastIndexByte(cell.Row, ',')
 	if i < 0 || j == i || j+1 == len(cell.Row) || cell.Row[j+1] < '0' || cell.Row[j+1] > '9' {
 		return nil, fmt.Errorf("invalid region name in %q", cell)
+	}
+	// The table name has to fit, with ",,:" and the namespace separator, into
+	// a row key of hbase:meta: createRegionSearchKey can't build a key otherwise
+	if len(regInfo.TableName.Namespace)+len(regInfo.TableName.Qualifier)+4 > math.MaxInt16 {
+		return nil, fmt.Errorf("table name is too long in %q", cell)
 	}
 	var namespace []byte
 	if !bytes.Equal(regInfo.TableName.Namespace, defaultNamespace) {
